@@ -14,7 +14,7 @@ func init() {
 	modes["stats-replay"] = statsReplay
 }
 
-var statsFull = regexp.MustCompile(`(?s)Database records:\s*(\d+).*Log records:\s*(\d+)\n  Today:\s*(\S+)\n  First record:\s*(\S+) \((-?\d+) days ago\)\n  Last record:\s*(\S+) \((-?\d+) days ago\)`)
+var statsFull = regexp.MustCompile(`(?s)Database records:\s*(\d+)\n.*?Log records:\s*(\d+)\n.*?Today:\s*(\S+)\n.*?First record:\s*(\S+) \((-?\d+) days ago\)\n.*?Last record:\s*(\S+) \((-?\d+) days ago\)`)
 
 // statsReplay (C07, last clause): for every enumerated log of Walk.tla, `stats` must report the number of
 // headings of the log and of the book, the first and last heading in file order and their distance in
